@@ -1,4 +1,5 @@
 import Pko.Lemmas.C10Drift
+import Pko.Lemmas.C10Adopt
 /-!
 # C10 — reconciliation converges from any crash, fault or drift (partial)
 
@@ -129,6 +130,28 @@ theorem repair_after_disturbances (cfg : Cfg) (ow : Owner) (prev : List Prev) (c
   exact ⟨(pass_repairs cfg ow prev cls ps w0 hq0 hok hm0).2.1,
          second_pass_changes_nothing cfg ow prev cls ps w0 hq0 hok hm0⟩
 
+/-- **Handover converges** (native owner strategy): a rollout pass of a NEW revision over a phase
+whose objects are absent, already its own, or still controlled by a declared previous revision
+(recorded revision lower than its own) — i.e. any state a crashed or interrupted handover can
+leave behind — ends without error or collision with every object settled for the new revision
+(sole controller, previous owners demoted), touches no other key, and a further pass changes
+nothing. -/
+theorem handover_pass_repairs (cfg : Cfg) (ow : Owner) (prev : List Prev) (cls : String)
+    (ps : List PObj) (w : World) (hnat : cfg.st = .native) (hq : Quiet w) (hok : PhaseOk cfg ow cls ps)
+    (hm : ∀ p ∈ ps, Repairable cfg ow prev p w.store) :
+    let w1 := (reconcilePhase cfg ow prev cls ps w).1
+    (∃ failed, (reconcilePhase cfg ow prev cls ps w).2 = .ok failed) ∧
+    (∀ p ∈ ps, Settled cfg ow p w1.store) ∧
+    (∀ k', k' ∉ ps.map (keyOf cfg ow) → w1.store.get k' = w.store.get k') ∧
+    (reconcilePhase cfg ow prev cls ps w1).1.store = w1.store := by
+  intro w1
+  have h : (∃ f', (reconcilePhase cfg ow prev cls ps w).2 = .ok f') ∧
+      (∀ p ∈ ps, Settled cfg ow p w1.store) ∧ Quiet w1 ∧
+      ∀ k', k' ∉ ps.map (keyOf cfg ow) → w1.store.get k' = w.store.get k' := by
+    simp only [w1, reconcilePhase, hok.preflight]
+    exact go_handover cfg ow prev hnat ps w [] hq hok.reaches hok.distinct hm
+  exact ⟨h.1, h.2.1, h.2.2.2, (settled_pass_is_fixpoint cfg ow prev cls ps w1 h.2.2.1 hok h.2.1).1⟩
+
 /-! ### the crash-point ghost state -/
 
 /-- the snapshot `tick` takes is the store and phase objects as they are at that write request. -/
@@ -187,6 +210,34 @@ example :
     (s.get (keyOf exCfg exOw exP)).map (fun o => (o.payload, o.rev, o.cacheLabel, o.pkgLabel)) = some ("x", .num 3, true, "pkg") ∧
     (s.get (keyOf exCfg exOw exQ)).map (fun o => (o.payload, o.rev, o.cacheLabel, o.pkgLabel)) = some ("y", .num 3, true, "pkg") := by
   decide
+
+/-- non-vacuity of `handover_pass_repairs`: revision 2 meets an object revision 1 still controls. -/
+def exOw1 : Owner := { exOw with name := "os0", uid := "u0", rev := 1 }
+def exPrevObj : Obj :=
+  { uid := 1, rv := 1, gen := 1, owners := [exOw1.ref true], annOwners := [], rev := Rev.num 1
+    cacheLabel := true, pkgLabel := "pkg", payload := "x", ready := true, obsGen := none
+    finalizer := false, deleting := false }
+def exStore2 : Store := { objs := fun k => if k = keyOf exCfg exOw exP then some exPrevObj else none, nextUID := 2, nextRV := 2 }
+def exPrev : List Prev := [{ kind := "ObjectSet", name := "os0", uid := "u0", remotes := [] }]
+
+example : Repairable exCfg exOw exPrev exP exStore2 ∧ ¬ Mine exCfg exOw exP exStore2 := by
+  constructor
+  · refine Or.inr ⟨exPrevObj, by decide +kernel, ?_⟩
+    exact { notMine := by decide +kernel, parses := by decide, older := by decide +kernel
+            byPrev := by decide +kernel, uids := by simp [UidsDistinct, exPrevObj], alive := rfl
+            fresh := by
+              intro c hc
+              simp only [exPrevObj, List.mem_singleton] at hc
+              subst hc
+              exact ⟨by decide +kernel, by decide +kernel⟩
+            ns := Or.inr (by decide +kernel) }
+  · intro h
+    rcases h with h | ⟨o, hg, hc, _⟩
+    · have : exStore2.get (keyOf exCfg exOw exP) = some exPrevObj := by decide +kernel
+      rw [this] at h; cases h
+    · have : exStore2.get (keyOf exCfg exOw exP) = some exPrevObj := by decide +kernel
+      rw [this] at hg; cases hg
+      revert hc; decide +kernel
 
 /-
 Full statement (NOT proved — `whole_system_convergence_partial` is decided per run by exploration):
